@@ -491,6 +491,14 @@ func c20e(c *Ctx) {
 		_, isLocal := chunkLabelsMap.(*ssa.MakeMap)
 		c.Check(isLocal, "renderChunks/chunk-labels-local", c.W.FuncPos(rc), "the chunk-label set is local to the script being rendered", "chunk labels are collected into a map that outlives the script (labels of one script would be rejected in another)")
 		for _, call := range callsToIn(rc, rs) {
+			// the set is complete before the first statement is rendered
+			complete := true
+			instrs(rc, func(in ssa.Instruction) {
+				if mu, ok := in.(*ssa.MapUpdate); ok && mu.Map == chunkLabelsMap && canReach(call.(ssa.Instruction), mu) {
+					complete = false
+				}
+			})
+			c.Check(complete, "renderChunks/chunk-labels-complete-before-rendering", c.W.Pos(call.Pos()), "all generated labels are collected before any statement is rendered", "generated chunk labels are still being collected while statements are rendered: a script label is only checked against the chunks rendered so far")
 			a := call.Common().Args
 			c.Check(a[2] == chunkLabelsMap && c.term(rc, a[3]) == "$4", "renderChunks/passes-both-sets", c.W.Pos(call.Pos()), "renderStatements receives the chunk-label set and the text-label set", "renderStatements is not given (chunkLabels, textLabels)")
 		}
